@@ -10,7 +10,7 @@ from vlib.core import Failure
 PROP = "C03"
 RULE = (
     "a case is a HISTORY of 2-4 requests (GET / HEAD / POST, unique targets) on one pool (maxsize 1-2, retries False / 1 / 3): "
-    "per attempt the server behaviour = status 200 / 204 / 304 x framing Content-Length / chunked / close-delimited x "
+    "per attempt the server behaviour = status 200 / 201 / 205 / 404 / 500 (with body) / 204 / 304 x framing Content-Length / chunked / close-delimited x "
     "keep-alive / close x network segmentation x part of the response arriving only after the next request was written x {nothing, stray bytes or a complete second response after the body, a body "
     "after a body-less HEAD/204/304 response, an interim 100 Continue, early EOF inside the body}; per response the caller "
     "behaviour = read all / read k then release / release unread / drain / close / read k then close / stream / ignore / "
@@ -33,11 +33,14 @@ def _scale(n):
     return max(1, int(n * float(os.environ.get("VERIF_SCALE", "1"))))
 
 
+BODY_STATUSES = (200, 201, 205, 404, 500)  # 205 "should" have no body, but a server that sends one frames it like any other
+
+
 def server_outcome(sv):
     """JSON server behaviour -> ScriptServer outcome."""
     if sv.get("extra") == "short":
         return {"o": "short_eof", "seg": sv.get("seg")}
-    if sv.get("framing") == "close" and sv.get("extra") in ("stray", "second") and sv.get("status", 200) == 200:
+    if sv.get("framing") == "close" and sv.get("extra") in ("stray", "second") and sv.get("status", 200) in BODY_STATUSES:
         # with close-delimited framing everything up to EOF IS the body: "bytes after the body" do not exist
         sv = dict(sv, extra=None)
     o = servers.ok(sv.get("status", 200), body_len=sv.get("n", 40), framing=sv.get("framing", "cl"), keep=sv.get("keep", True))
@@ -45,7 +48,7 @@ def server_outcome(sv):
         o["seg"] = sv["seg"]
     if sv.get("cs"):
         o["chunk_sizes"] = sv["cs"]
-    if sv.get("late") is not None and sv.get("extra") in (None, "pre100") and sv.get("status", 200) == 200:
+    if sv.get("late") is not None and sv.get("extra") in (None, "pre100") and sv.get("status", 200) in BODY_STATUSES:
         # (unsolicited bytes that arrive only after the next request was written are indistinguishable from its
         #  response for any HTTP/1.1 client; the statement speaks of bytes pending AT CHECKOUT, so only the
         #  legitimate remainder of a body is ever delivered late)
@@ -78,7 +81,7 @@ def _validate(case):
         if not isinstance(r, dict) or r.get("m") not in ("GET", "HEAD", "POST") or r.get("b") not in BEHAVIOURS:
             raise core.InvalidCase
     for sv in svs:
-        if not isinstance(sv, dict) or sv.get("status", 200) not in (200, 204, 304) or sv.get("framing", "cl") not in ("cl", "chunked", "close") or sv.get("extra") not in EXTRAS:
+        if not isinstance(sv, dict) or sv.get("status", 200) not in BODY_STATUSES + (204, 304) or sv.get("framing", "cl") not in ("cl", "chunked", "close") or sv.get("extra") not in EXTRAS:
             raise core.InvalidCase
         if not isinstance(sv.get("keep", True), bool) or not (isinstance(sv.get("n", 40), int) and 0 <= sv.get("n", 40) <= 5000):
             raise core.InvalidCase
@@ -261,8 +264,8 @@ def product_cases(tier):
     for framing in ("cl", "chunked", "close"):
         for keep in (True, False):
             for extra in EXTRAS:
-                for status in (200, 204, 304):
-                    if status != 200 and extra in ("short", "pre100"):
+                for status in (200, 204, 304, 205, 404):
+                    if status in (204, 304) and extra in ("short", "pre100"):
                         continue
                     for m in ("GET", "HEAD", "POST"):
                         for b in BEHAVIOURS:
@@ -295,7 +298,7 @@ def _hyp():
     from hypothesis import strategies as st
 
     sv = st.fixed_dictionaries({
-        "status": st.sampled_from([200, 200, 200, 204, 304]), "framing": st.sampled_from(["cl", "chunked", "close"]), "keep": st.sampled_from([True, True, False]),
+        "status": st.sampled_from([200, 200, 200, 204, 304, 201, 205, 404, 500]), "framing": st.sampled_from(["cl", "chunked", "close"]), "keep": st.sampled_from([True, True, False]),
         "extra": st.sampled_from(EXTRAS + [None, None]), "seg": st.sampled_from([None, None, 1, 2, 7, 13, 100]), "n": st.sampled_from([0, 1, 5, 9, 10, 40, 200, 3000]),
         "cs": st.lists(st.integers(1, 40), max_size=3), "late": st.sampled_from([None, None, None, 0, 5, 9, 12, 100]), "trap": st.booleans(),
     })
